@@ -8,12 +8,22 @@ def check(ctx):
     def replay(ctx, r):
         ce = r.ce('C09')
         exe = sc.native_engine(ctx)
-        d = max(1, ce.get('ce_depth', 1))
-        out = sc.uci_session(ctx, exe, ['position fen 8/8/8/4k3/8/4K3/8/8 w - - 0 1', 'go depth %d' % d], wait=3.0)
-        depths = [int(x) for x in re.findall(r'^info depth (\d+)', out, re.M)]
-        bad = depths != list(range(1, len(depths) + 1)) or (depths and depths[-1] > d)
-        path = report.save_replay(ctx, r.q.name, {'harness': 'h_go', 'limits': ce, 'native_depths': depths})
-        return {'confirmed': bool(bad), 'key': 'depth-sequence', 'path': path, 'text': '%s | native go depth %d reported iterations %s' % ('; '.join(x for _, x in r.failed[:2]), d, depths[:8])}
+        d = ce.get('ce_depth', 0)
+        # the go command of the counterexample (searchmoves need a concrete position and are left out)
+        go = 'go'
+        if ce.get('ce_infinite'): go += ' infinite'
+        if d > 0: go += ' depth %d' % d
+        if ce.get('ce_movetime', 0) > 0: go += ' movetime %d' % max(ce.get('ce_movetime'), 3000)
+        if ce.get('ce_nodes', 0) > 0: go += ' nodes %d' % max(ce.get('ce_nodes'), 10 ** 9)
+        if ce.get('ce_tleft', 0) > 0: go += ' wtime %d btime %d' % (max(ce.get('ce_tleft'), 600000), max(ce.get('ce_tleft'), 600000))
+        outs = []; bad = False; depths = []
+        for fen in ('8/8/8/4k3/8/4K3/8/8 w - - 0 1', 'rnbqkbnr/pppppppp/8/8/8/8/PPPPPPPP/RNBQKBNR w KQkq - 0 1'):
+            out = sc.uci_session(ctx, exe, ['position fen ' + fen, go], wait=4.0)
+            depths = [int(x) for x in re.findall(r'^info depth (\d+)', out, re.M)]
+            outs.append({'fen': fen, 'go': go, 'depths': depths})
+            if depths != list(range(1, len(depths) + 1)) or (d > 0 and not ce.get('ce_infinite') and depths and depths[-1] > d): bad = True
+        path = report.save_replay(ctx, r.q.name, {'harness': 'h_go', 'limits': ce, 'native_sessions': outs})
+        return {'confirmed': bool(bad), 'key': 'depth-sequence', 'path': path, 'text': '%s | native "%s" reported iterations %s' % ('; '.join(x for _, x in r.failed[:2]), go, [o['depths'][:10] for o in outs])}
     return report.finish(ctx, res, wit, replay=replay,
         assumptions=sc.ASSUME + ['termination: the iteration loop is bounded by the depth limit (unwinding assertion of the outer loop); that the aspiration loop ends needs values strictly inside the infinite bounds (contract) -- '
                                  'its growth argument uses floating point and is not re-proved in this query',
